@@ -14,6 +14,7 @@ import MysyncModel.Replay.Mgr
 import MysyncModel.Replay.C09
 import MysyncModel.Replay.C08
 import MysyncModel.Replay.C04
+import MysyncModel.Replay.C01
 
 open Lean Replay
 
@@ -30,7 +31,8 @@ def handlers : List (String × Handler) := [
   ("mgrtick", Replay.Mgr.handleTick),
   ("c09h", Replay.C09.handle),
   ("c08", Replay.C08.handle),
-  ("c04", Replay.C04.handle)
+  ("c04", Replay.C04.handle),
+  ("c01", Replay.C01.handle)
 ]
 
 partial def loop (h : IO.FS.Stream) (seen : Std.HashSet UInt64) (a : Acc) : IO Acc := do
